@@ -37,7 +37,7 @@ func init() {
 		Level: "exploration",
 		Cases: func(t string) int {
 			if t == ev.Thorough {
-				return 600000
+				return 300000
 			}
 			return 12000
 		},
@@ -55,6 +55,12 @@ func init() {
 			"logs carry at least one indexed value (the event signature): AddLog by design records nothing for a log without indexed values, so such a log carries no expectation",
 			"nil indexed entries are 'no value' and carry no expectation (the query side skips them the same way)",
 			"MapDB is the store for the receipt list",
+		},
+		TimeoutSec: func(t string) int {
+			if t == ev.Thorough {
+				return 5400
+			}
+			return 900
 		},
 		Env: func(string, int) []string { return []string{"GOMAXPROCS=2", "GOGC=400"} },
 		Run: run,
